@@ -51,7 +51,8 @@ Inductive event :=
 | EStop (r : nat)
 | EPurge (r : nat)
 | ETimer (n : nat)
-| EOutside (sl res : nat).
+| EOutside (sl res : nat)
+| ECancel (r : nat).
 
 Definition is_some {A} (o : option A) : bool := match o with Some _ => true | None => false end.
 
@@ -332,6 +333,7 @@ Fixpoint replay (s : state) (b : list (nat * nat)) (i : nat) (es : list event) :
           if Nat.eqb res (slot_res s sl) then
             match step s (LOutside sl) with Some s1 => replay s1 b (S i) t | None => inr (4, i) end
           else inr (4, i)
+      | ECancel r => match step s (LCancel r) with Some s1 => replay s1 b (S i) t | None => inr (4, i) end
       end
   end.
 
